@@ -19,7 +19,9 @@ import QipVerif.Gen.GateCtor
                                     `get_compact_qobj`; `Q` is `-` (absent), `N` (None), `s:3`, `l:0,2`; `A` is `-`, `N`, `s`
                                     (a number), `l3` (a list of 3 numbers); `V` is `-`, `N` or an integer;
                                     `<compact>` is `plain` (the class's matrix function at arg_value), `block K rows`
-                                    (as for `ctrl`, U = the target gate's matrix) or `cerr <kind>`
+                                    (as for `ctrl`, U = the target gate's matrix) or `cerr <kind>`; with an extra field
+                                    `n=N` a `block` answer is `get_qobj(dims=[2]*N)` of the object (`xerr <kind>` if
+                                    expand_operator refuses the placement)
 -/
 open QipVerif QipVerif.Proto QipVerif.GateIO
 
@@ -80,12 +82,23 @@ def ctorStep (fs : List String) : String :=
         | .error .fixedCV => head ++ "cerr fixedCV"
         | .error (.ctrl x) => head ++ "cerr " ++ ctrlErr x
         | .ok .plain => head ++ "plain"
-        | .ok (.block res) =>
-          let dims := List.replicate res.K 2
-          let n := 2 ^ res.K
-          let rows := (List.range n).map fun X =>
-            String.ofList ((List.range n).map fun Y => entChar (res.entry (Embed.digits dims X) (Embed.digits dims Y)))
-          head ++ s!"block {res.K} " ++ ";".intercalate rows
+        | .ok (.block res0) =>
+          -- with `n=N`: `get_qobj(dims=[2]*N)` of the object (GateCtor.expanded) instead of the compact matrix
+          let res? : Except String Ctrl.Res :=
+            match fNat? fs "n" with
+            | none => .ok res0
+            | some N =>
+              match GateCtor.expanded N o res0 with
+              | .ok R => .ok R
+              | .error x => .error (ctrlErr (.embed x))
+          match res? with
+          | .error x => head ++ "xerr " ++ x
+          | .ok res =>
+            let dims := List.replicate res.K 2
+            let n := 2 ^ res.K
+            let rows := (List.range n).map fun X =>
+              String.ofList ((List.range n).map fun Y => entChar (res.entry (Embed.digits dims X) (Embed.digits dims Y)))
+            head ++ s!"block {res.K} " ++ ";".intercalate rows
   | _, _, _, _, _, _ => "bad-op"
 
 def step (line : String) : String :=
